@@ -201,7 +201,9 @@ def rule_eq_key_complete(ctx: Ctx, rep: Report) -> None:
             if isinstance(r, ast.Return) and r.value is not None:
                 for x in ast.walk(r.value):
                     if isinstance(x, ast.Attribute) and isinstance(x.value, ast.Name) and x.value.id == "self":
-                        out.add(x.attr.lstrip("_"))
+                        # `self.G[0]` is a part of G, not G: a curve on -G has the same x
+                        part = isinstance(parent(x), ast.Subscript) and parent(x).value is x
+                        out.add(x.attr.lstrip("_") + ("[part]" if part else ""))
                     if isinstance(x, ast.Call) and str(norm(x.func)) == "super()._eq_key":
                         out.add("<super>")
         return out
